@@ -962,3 +962,48 @@ def c08(ctx):
             'calling it from two goroutines), 4-16 goroutines x 10-50 invocations with distinct arguments, every result compared with the '
             'sequential expectation; memoized/singleton sharing across chains covered by the C09/C10 workloads in the same run')
     return conc_family(ctx, 'C08', ['isolation', 'memo', 'singleton', 'static'], rule)
+
+
+@prop('C12')
+def c12(ctx):
+    rule = ('each generated chain is re-bound with a *Debugging parameter added to the final function: included set and trace must be '
+            'unchanged (neutrality); the NamesIncluded / IncludeExclude the body receives are compared with the bound chain in the S7 dump '
+            '(same providers, same order, every other provider EXCLUDED); concurrent failing/succeeding/Debugging Binds from 3-10 goroutines '
+            'under -race with a deadlock watchdog, DetailedError prefix checked on every failing Bind; theorems over the debug-lock machine')
+    ob, dis, details = proof_obligations(ctx, 'C12')
+    n = 1500 if ctx.tier == 'quick' else 15000
+    cases = load_cases(ctx, 'debug', n)
+    st = collections.Counter(); distinct = set()
+    for c in cases or []:
+        for l in pair_lines(c):
+            tk = l.split()
+            st[tk[1] + '-' + tk[2]] += 1
+            if tk[2] == 'diff':
+                ctx.violations.append(('%s: %s (case %s)' % (tk[1], ' '.join(tk[3:])[:200], c.key), write_replay(ctx, 'case_%s.txt' % c.key, c.text()), True))
+            elif tk[1] == 'dbgnames':
+                distinct.add(c.shape_key())
+        if len(ctx.samples) < 2 and any(l.startswith('pair dbgnames') for l in c.lines):
+            ctx.samples.append({'case': c.key, 'pairs': pair_lines(c)})
+    rounds = 6 if ctx.tier == 'quick' else 60
+    lines, races, stderr = vcheck.conc_run(ctx, rounds)
+    for l in lines or []:
+        tk = l.split()
+        if tk[1] != 'bind':
+            continue
+        st['conc-bind-' + tk[2]] += 1
+        if tk[2] != 'ok':
+            ctx.violations.append(('concurrent Bind workload: %s' % ' '.join(tk[3:]), write_replay(ctx, 'conc_bind.txt', '\n'.join(lines) + '\n' + stderr), True))
+        elif len(ctx.samples) < 4:
+            ctx.samples.append(l)
+    if races:
+        ctx.violations.append(('the race detector reported %d data race(s)' % races, write_replay(ctx, 'race_report.txt', stderr), True))
+    ctx.cov['evaluations'] = sum(st.values())
+    ctx.cov['programs'] = len(cases or [])
+    ctx.cov['distinct_nontrivial'] = len(distinct)
+    ctx.cov['traces_validated_against_impl'] = sum(v for k, v in st.items() if k.endswith('-same') or k.endswith('-ok'))
+    ctx.cov['outcomes'] = dict(st)
+    ctx.assumptions += ['no user callback re-enters Bind while the debug lock is held (ReplaceSelf of generated providers runs under the read lock)',
+                        'with an init function, Debugging is only filled once init has been called (documented contract)']
+    if len(ctx.violations) > 5:
+        ctx.violations.sort(key=lambda v: not v[2]); ctx.violations = ctx.violations[:5]
+    return finish(ctx, 'proof', ob, dis, details, rule)
